@@ -37,7 +37,20 @@
 #define MFD_CLOEXEC 1
 #endif
 
+#include <csetjmp>
 int tool_main(int argc, char* argv[]);
+
+// In-process runs survive assertion aborts and crashes: the handler jumps back to the
+// server loop, which reports the signal.  After a memory fault (or many aborts) the
+// server announces that it exits, and the client starts a fresh one.
+static sigjmp_buf inproc_jb;
+static volatile sig_atomic_t inproc_active = 0;
+static volatile sig_atomic_t inproc_sig = 0;
+static void inproc_handler(int s)
+{
+  if (inproc_active) { inproc_sig = s; inproc_active = 0; siglongjmp(inproc_jb, 1); }
+  signal(s, SIG_DFL); raise(s);
+}
 
 static FILE* in; static FILE* outp;
 
@@ -88,8 +101,19 @@ int main()
       std::vector<char*> av;
       for (size_t i = 0; i < a2.size(); ++i) av.push_back(&a2[i][0]);
       av.push_back(0);
+      static int aborts_survived = 0;
+      int rc = 0, sig = 0, leaving = 0;
+      struct sigaction sa; memset(&sa, 0, sizeof sa); sa.sa_handler = inproc_handler; sa.sa_flags = SA_NODEFER;
+      sigaction(SIGABRT, &sa, 0); sigaction(SIGSEGV, &sa, 0); sigaction(SIGBUS, &sa, 0); sigaction(SIGFPE, &sa, 0); sigaction(SIGALRM, &sa, 0);
       alarm((unsigned)(timeout_ms / 1000) + 1);
-      int rc = tool_main((int)a2.size(), &av[0]);
+      if (sigsetjmp(inproc_jb, 1) == 0) {
+	inproc_active = 1;
+	rc = tool_main((int)a2.size(), &av[0]);
+	inproc_active = 0;
+      } else {
+	sig = inproc_sig;
+	if (sig != SIGABRT || ++aborts_survived >= 200) leaving = 1;
+      }
       alarm(0);
       std::cout.flush(); std::cerr.flush(); fflush(stdout); fflush(stderr);
       dup2(s0, 0); dup2(s1, 1); dup2(s2, 2); close(s0); close(s1); close(s2);
@@ -97,10 +121,14 @@ int main()
       lseek(fo, 0, SEEK_SET); while ((k = read(fo, buf, sizeof buf)) > 0) out.append(buf, k);
       lseek(fe, 0, SEEK_SET); while ((k = read(fe, buf, sizeof buf)) > 0) err.append(buf, k);
       close(fi); close(fo); close(fe);
-      fprintf(outp, "%d 0 0 %zu %zu\n", rc & 0xff, out.size(), err.size());
+      if (sig == SIGALRM)
+	fprintf(outp, "-1 0 1 %zu %zu %d\n", out.size(), err.size(), leaving);
+      else
+	fprintf(outp, "%d %d 0 %zu %zu %d\n", sig ? -1 : (rc & 0xff), sig, out.size(), err.size(), leaving);
       fwrite(out.data(), 1, out.size(), outp);
       fwrite(err.data(), 1, err.size(), outp);
       fflush(outp);
+      if (leaving) return 0;
       continue;
     }
     int po[2], pe[2], pi[2];
@@ -195,7 +223,7 @@ int main()
     close(po[0]); close(pe[0]);
     int rc = WIFEXITED(st) ? WEXITSTATUS(st) : -1;
     int sig = WIFSIGNALED(st) ? WTERMSIG(st) : 0;
-    fprintf(outp, "%d %d %d %zu %zu\n", rc, sig, timedout ? 1 : 0, out.size(), err.size());
+    fprintf(outp, "%d %d %d %zu %zu 0\n", rc, sig, timedout ? 1 : 0, out.size(), err.size());
     fwrite(out.data(), 1, out.size(), outp);
     fwrite(err.data(), 1, err.size(), outp);
     fflush(outp);
